@@ -15,6 +15,9 @@ import PyomaVerif.Model.Plscf
   factors).  What the LAPACK / libm calls returned comes in as one record per call of `ac2mp`
   (`EigRec`, in call order) and one recorded inverse `OO` per order.
 * `fastLists` — the list-building loop of `ssi.SSI_fast` (`for ii in trange(0, ordmax + 1, step)`).
+* `legacySSI` / `legacyLists` — the legacy `ssi.SSI` after its `np.linalg.svd`: `Nch`, the loop
+  `for ii in trange(0, ordmax + 1, step)`, per pass `Obs = U1[:, :ii]·S1rad[:ii, :ii]` with the clipping of
+  the slices (`legacyObs`, `ValueError` of `np.dot` for a tall `H`), the recorded `pinv`, `A`, `C`.
 * `plscfAll` — `plscf.pLSCF`: `sgn_basf` decides BOTH the constraint (`"LO"`/`"HI"`) and the basis
   `Omega = exp(sgn_basf·1j·omega·dt)`; loop over the orders; `alpha.reshape((-1, Nch, Nch))`
   (`reshapeAd`), `np.moveaxis(beta, 1, 0)` (`moveaxisBn`); the two lists.
@@ -213,6 +216,51 @@ def fastLists {K : Type} [Zero K] [Add K] [Mul K] (Rinv : Nat → Mat K) (Q Obs 
   ((List.range ((ordmax + 1 + step - 1) / step)).map fun k =>
       fastA (Rinv k) Q (dnPart Obs l) (k * step),
    (List.range ((ordmax + 1 + step - 1) / step)).map fun k => outC Obs l (k * step))
+
+/-! ## the lists of the legacy `ssi.SSI` -/
+
+section legacy
+variable {K : Type} [Zero K] [Add K] [Mul K]
+
+/-- `Obs = np.dot(U1[:, :ii], S1rad[:ii, :ii])` of one pass of the legacy loop.  `U1` is the recorded left
+    factor of `np.linalg.svd(H)` (all its columns), `sq = np.sqrt(S1)` the recorded roots of ALL singular
+    values (`S1rad = np.sqrt(np.diag(S1))` is the diagonal matrix of these; its off-diagonal zeros
+    contribute exact zeros to the product).  Slices clip: `U1[:, :ii]` has `min(ii, U1.shape[1])`
+    columns, `S1rad[:ii, :ii]` is square of size `min(ii, len(S1))`; `np.dot` raises `ValueError` when the
+    two differ (a tall `H` with `ii > H.shape[1]`). -/
+def legacyObs (U : Mat K) (sq : List K) (ii : Nat) : Except String (Mat K) :=
+  if min ii U.c ≠ min ii sq.length then .error "ValueError"
+  else .ok (obsOf U (fun j => sq.getD j 0) (min ii sq.length))
+
+/-- the loop `for ii in trange(0, ordmax + 1, step)` of `ssi.SSI` over the orders `rest`, `k` the number
+    of the pass: `A.append(np.dot(np.linalg.pinv(Obs[: Obs.shape[0] - Nch, :]), Obs[Nch:, :]))`,
+    `C.append(Obs[:Nch, :])`; `Pinv k` is what `np.linalg.pinv` returned in pass `k`. -/
+def legacyLoop (Pinv : Nat → Mat K) (U : Mat K) (sq : List K) (l : Nat) :
+    List Nat → Nat → Except String (List (Mat K) × List (Mat K))
+  | [], _ => .ok ([], [])
+  | ii :: rest, k =>
+    match legacyObs U sq ii with
+    | .error e => .error e
+    | .ok Obs =>
+      match legacyLoop Pinv U sq l rest (k + 1) with
+      | .error e => .error e
+      | .ok (As, Cs) => .ok (legacyA (Pinv k) Obs l :: As, outC Obs l Obs.c :: Cs)
+
+/-- the two lists the legacy loop builds for `Nch = l` and `step ≥ 1`: list position `k` holds order
+    `k·step` (`range(0, ordmax + 1, step)`). -/
+def legacyLists (Pinv : Nat → Mat K) (U : Mat K) (sq : List K) (l ordmax step : Nat) :
+    Except String (List (Mat K) × List (Mat K)) :=
+  legacyLoop Pinv U sq l (scOrders 0 ordmax step) 0
+
+/-- **`ssi.SSI(H, br, ordmax, step)`** (legacy) after `np.linalg.svd(H)` (`U`, `sq` as in `legacyObs`;
+    `U.r = H.shape[0]`): `Nch = int(H.shape[0] / (br + 1))`; `range(0, ordmax + 1, 0)` raises
+    `ValueError`. -/
+def legacySSI (Pinv : Nat → Mat K) (U : Mat K) (sq : List K) (br ordmax step : Nat) :
+    Except String (List (Mat K) × List (Mat K)) :=
+  if step = 0 then .error "ValueError"
+  else legacyLists Pinv U sq (U.r / (br + 1)) ordmax step
+
+end legacy
 
 end Poles
 
